@@ -319,7 +319,11 @@ M_BTNODE = KModule("btree_node", "src/btree/node.rs", "verif_btree_node", "btree
                    lambda: "\n".join([("node_harness!(#[kani::unwind(12)] %s, %s);" % (nm, call)) if stub else
                                       ("#[kani::proof]\n#[kani::unwind(12)]\nfn %s() { %s; }" % (nm, call)) for (nm, call, stub, _t) in BT_SHAPES] +
                                      ["node_harness!(#[kani::unwind(13)] #[kani::stub(super::Node::write_split_child, stub_write_split_child)] u70_insert_node_n%d_at%d, u70_insert_node(%d, %d));" % (n, at, n, at) for (n, at) in U70_SHAPES] +
-                                     ["node_harness!(#[kani::unwind(13)] #[kani::stub(super::Node::write_split_child, stub_write_split_child)] #[kani::stub(super::Node::create_separator, stub_create_separator)] u71_insert_leaf_n%d, u71_insert_leaf(%d));" % (n, n) for n in range(0, 9)]))
+                                     ["node_harness!(#[kani::unwind(13)] #[kani::stub(super::Node::write_split_child, stub_write_split_child)] #[kani::stub(super::Node::create_separator, stub_create_separator)] u71_insert_leaf_n%d, u71_insert_leaf(%d));" % (n, n) for n in range(0, 9)] +
+                                     ["node_harness!(#[kani::unwind(13)] #[kani::stub(crate::column::Column::write_existing_value_plan, stub_write_existing_value_plan)] u72_remove_leaf_n%d, u72_remove_leaf(%d));" % (n, n) for n in range(0, 9)]))
+for _n in range(0, 9):
+    M_BTNODE.harnesses.append(H("u72_remove_leaf_n%d" % _n, "U72", kind="proof", tiers=("quick", "thorough") if _n in (1, 4, 8) else ("thorough",),
+                                shape="Node::on_existing on a leaf with %d key(s); the key is arbitrary (present or absent), the value goes away or stays" % _n))
 for _n in range(0, 9):
     M_BTNODE.harnesses.append(H("u71_insert_leaf_n%d" % _n, "U71", kind="proof", tiers=("quick", "thorough") if _n in (0, 3, 8) else ("thorough",),
                                 shape="Node::insert into a leaf with %d key(s); the key inserted is arbitrary (present or absent, any position)" % _n))
@@ -1151,3 +1155,10 @@ for _p in ("C09", "C14"):
 UNIT_META["free_list"]["functions"] = UNIT_META["free_list"]["functions"] + ["table::ValueTable::refresh_metadata"]
 UNIT_META["free_list"]["assumes"] = UNIT_META["free_list"]["assumes"] + ["refresh_metadata: `self.file.map.read().is_none()` and `self.file.read_at(&mut header.0, 0)` are contracts (is the file mapped; the 16 header bytes at offset 0); Header::{last_removed, filled} decode them (Kani U5)"]
 PROPS["C14"]["claim"] = PROPS["C14"]["claim"] + " ValueTable::refresh_metadata (Verus) re-reads the list head and the fill mark from the header on disk whatever they were in memory (a replayed record may have changed either alone) and starts an empty table at slot 1."
+
+# ---------------------------------------------------------------- U72 (Kani: Node::on_existing at leaf level)
+UNIT_META["U72"] = {"functions": ["btree::node::Node::{on_existing (leaf branch), position, remove_separator, remove_from, need_rebalance, separator_address}"],
+                    "assumes": ["Column::write_existing_value_plan (releases the value entry / lowers its count: U8d) replaced by its contract with a scripted outcome (value gone / value stays)",
+                                "one-byte keys as in U71; complete over the leaf sizes 0..=ORDER and every key position"]}
+PROPS["C04"]["kani_units"] = list(PROPS["C04"]["kani_units"]) + ["U72"]
+PROPS["C04"]["claim"] = PROPS["C04"]["claim"] + " Leaf removal (Kani, complete over leaf sizes 0..=8, any key): Node::on_existing releases the value entry of exactly the key named, once; if the value goes away the key leaves the leaf and the other keys stay packed, in order, each with its own value, and a rebalance is asked for exactly when the leaf drops below half full; a key that is not in the leaf changes nothing."
